@@ -5,7 +5,7 @@
    frames that were written, whatever the byte order and whatever else is in the file; the check compares the exports of the same
    packets under resolutions 10^-k and 2^-k and offsets. *)
 From Coq Require Import ZArith List Bool.
-Require Import PyLib PcapngReader PcapngSpec C12P.
+Require Import TimeConv TimeP PyLib PcapngReader PcapngSpec C12P.
 Import ListNotations.
 Open Scope Z_scope.
 
@@ -33,6 +33,27 @@ Theorem C12_resolution : forall le lt sn v, 0 <= lt < 256 ^ 2 -> 0 <= sn < 256 ^
   Ok {| ts_base := if v <? 128 then 10 else 2; ts_exp := if v <? 128 then v else v - 128; ts_offset := 0 |}.
 Proof. exact tsinfo_resol. Qed.
 Print Assumptions C12_resolution.
+
+(* ---- time stamps: ticks -> float seconds (reader) -> integer microseconds (writer), Model/TimeConv.v ----
+   The same instant, a whole number m of microseconds before 2^51 us (the year 2041), written as ticks of any two resolutions (ticks / divisor
+   = m / 10^6: every 10^-k with k >= 6, every coarser 10^-k and every 2^-k that can express the instant), without if_tsoffset, is exported
+   as m from both.  (Assumes the standard library's real numbers and classical logic, through Flocq -- see DESIGN.md I.5.) *)
+Theorem C12_time_any_resolution : forall n d n' d' m, 0 < n -> 0 < d -> 0 < n' -> 0 < d' -> n * 1000000 = m * d -> n' * 1000000 = m * d' -> m < 2 ^ 51 ->
+  time_us n d 0 = Some m /\ time_us n' d' 0 = Some m.
+Proof. intros n d n' d' m Hn Hd Hn' Hd' H H' Hm. exact (conj (time_us_whole n d m Hn Hd H Hm) (time_us_whole n' d' m Hn' Hd' H' Hm)). Qed.
+Print Assumptions C12_time_any_resolution.
+
+Theorem C12_time_pow10 : forall k m, 6 <= k -> 0 < m < 2 ^ 51 -> time_us (m * 10 ^ (k - 6)) (10 ^ k) 0 = Some m.
+Proof. exact time_us_pow10. Qed.
+Print Assumptions C12_time_pow10.
+
+Theorem C12_time_coarse : forall k n, 0 <= k <= 6 -> 0 < n -> n * 10 ^ (6 - k) < 2 ^ 51 -> time_us n (10 ^ k) 0 = Some (n * 10 ^ (6 - k)).
+Proof. exact time_us_coarse. Qed.
+Print Assumptions C12_time_coarse.
+
+(* non-vacuity and the finding repaired by 8eef5f1: an instant in 2039 at if_tsresol 7, and 2^-20 ticks *)
+Example C12_time_example : time_us 21797302000623990 10000000 0 = Some 2179730200062399 /\ time_us (1700000000 * 2 ^ 20 + 2 ^ 19) (2 ^ 20) 0 = Some 1700000000500000.
+Proof. vm_compute. split; reflexivity. Qed.
 
 (* non-vacuity: a big-endian file with a statistics-like block before the interface, a name-resolution-like block between a secrets
    block and two frames (one as obsolete Packet Block) *)
